@@ -42,6 +42,7 @@ def resOf (e : Err) : Res := if e = [] then .ok else .err e
 inductive Write where
   | ins (k : Nat)
   | del (k : Nat)
+  | nop                  -- a DELETE whose WHERE (chained `id <> k` condition of the handle AND `id = k`) matches no row
 deriving DecidableEq, Repr
 
 def insSorted (k : Nat) : Store → Store
@@ -52,6 +53,7 @@ def insSorted (k : Nat) : Store → Store
 def Write.apply : Write → Store → Except ErrAtom Store
   | .ins k, s => if k ∈ s then .error .conflict else .ok (insSorted k s)
   | .del k, s => .ok (s.filter (· ≠ k))
+  | .nop, s => .ok s
 
 inductive SpName where
   | manual (n : Nat)
@@ -71,6 +73,9 @@ structure DB where
   tx : Option TxSt := none          -- the open driver-level transaction (its connection is checked out while it is `some`)
   calls : Nat := 0                  -- number of driver calls made so far (index into the fault oracle)
   trace : List (K × Bool) := []     -- ghost: kinds of the driver calls, reversed; flag = failed
+  txof : List Nat := []             -- ghost, parallel to `trace`: ordinal of the driver transaction the call ran in (0 = on a pool
+                                    --   connection outside any driver transaction; BEGIN itself is tagged 0)
+  nbegun : Nat := 0                 -- ghost: number of driver transactions begun so far
   reads : List Store := []          -- ghost: results of successful reads, reversed
   stale : Bool := false             -- ghost: an operation was started on a handle whose sticky Error was already set
   rbFault : Bool := false           -- ghost: a fault was injected into a ROLLBACK TO statement
@@ -82,14 +87,17 @@ abbrev Oracle := Nat → Bool
 /-- driver-level open transactions = checked-out connections between operations -/
 def DB.open (db : DB) : Nat := if db.tx.isSome then 1 else 0
 
+/-- tag of a driver call: the ordinal of the open driver transaction, 0 when the call runs outside any -/
+def DB.tag (db : DB) : Nat := if db.tx.isSome then db.nbegun else 0
+
 /-- one driver call of kind `k`: logged, numbered; returns whether the oracle fails it -/
 def tick (o : Oracle) (k : K) (db : DB) : DB × Bool :=
   let f := o db.calls
-  ({ db with calls := db.calls + 1, trace := (k, f) :: db.trace }, f)
+  ({ db with calls := db.calls + 1, trace := (k, f) :: db.trace, txof := db.tag :: db.txof }, f)
 
 /-- ROLLBACK cannot be failed (rec.go `recTx.Rollback` discards the hook's result; gorm discards Rollback's result anyway) -/
 def tickR (db : DB) : DB :=
-  { db with calls := db.calls + 1, trace := (K.R, false) :: db.trace }
+  { db with calls := db.calls + 1, trace := (K.R, false) :: db.trace, txof := db.tag :: db.txof }
 
 /-! ### Layer 1: database/sql + SQLite -/
 
@@ -97,7 +105,7 @@ def tickR (db : DB) : DB :=
 def drvBegin (o : Oracle) (db : DB) : DB × Err :=
   let n := db.calls
   let (db, f) := tick o .B db
-  if f then (db, [.inj n]) else ({ db with tx := some { cur := db.committed, saves := [] } }, [])
+  if f then (db, [.inj n]) else ({ db with tx := some { cur := db.committed, saves := [] }, nbegun := db.nbegun + 1 }, [])
 
 /-- statement on the pool (no transaction): auto-commit -/
 def drvExecPool (o : Oracle) (w : Write) (db : DB) : DB × Err :=
@@ -120,18 +128,21 @@ def drvExecTx (o : Oracle) (w : Write) (db : DB) : DB × Err :=
       | .ok s => ({ db with tx := some { t with cur := s } }, [])
       | .error a => (db, [a])
 
-def drvQueryPool (o : Oracle) (db : DB) : DB × Err :=
+/-- rows a SELECT with the handle's chained `id <> k` conditions returns -/
+def visible (cond : List Nat) (s : Store) : Store := s.filter (fun x => !cond.contains x)
+
+def drvQueryPool (o : Oracle) (cond : List Nat) (db : DB) : DB × Err :=
   let n := db.calls
   let (db, f) := tick o .Q db
-  if f then (db, [.inj n]) else ({ db with reads := db.committed :: db.reads }, [])
+  if f then (db, [.inj n]) else ({ db with reads := visible cond db.committed :: db.reads }, [])
 
-def drvQueryTx (o : Oracle) (db : DB) : DB × Err :=
+def drvQueryTx (o : Oracle) (cond : List Nat) (db : DB) : DB × Err :=
   match db.tx with
   | none => (db, [.txDone])
   | some t =>
     let n := db.calls
     let (db, f) := tick o .Q db
-    if f then (db, [.inj n]) else ({ db with reads := t.cur :: db.reads }, [])
+    if f then (db, [.inj n]) else ({ db with reads := visible cond t.cur :: db.reads }, [])
 
 /-- `SAVEPOINT name` on the tx connection -/
 def drvSavepoint (o : Oracle) (name : SpName) (db : DB) : DB × Err :=
@@ -195,23 +206,94 @@ structure Cfg where
   skip : Bool    -- SkipDefaultTransaction
 deriving DecidableEq, Repr
 
-/-- a `*gorm.DB` handle with clone = 1: its pool and its sticky `Error` -/
+/-- `DB.clone`: 0 = a chained instance (result of Where/Model/…; operations run ON it), 1 = operations start from a NEW
+    Statement (gorm.go:408), 2 = operations start from a CLONE of the handle's Statement (gorm.go:420) -/
+inductive Clone where | c0 | c1 | c2
+deriving DecidableEq, Repr
+
+/-- a `*gorm.DB` handle: the dynamic type of `Statement.ConnPool`, its sticky `Error`, the per-handle copy of the Config
+    flags a `Session` can switch on (gorm.go:227 `txConfig = *db.Config`), the chained conditions its Statement holds and
+    its clone mode -/
 structure Handle where
   pool : Pool
   err : Err := []
+  skip : Bool := false      -- Session{SkipDefaultTransaction: true} was applied on the way to this handle
+  dis : Bool := false       -- Session{DisableNestedTransaction: true} was applied on the way to this handle
+  cond : List Nat := []     -- `Where("id <> ?", k)` conditions held by the handle's Statement
+  clone : Clone := .c1
 deriving DecidableEq, Repr
+
+/-- the conditions an operation issued on the handle runs with: a clone = 1 handle starts from a new Statement -/
+def Handle.effCond (h : Handle) : List Nat := if h.clone = .c1 then [] else h.cond
 
 def Cfg.root (c : Cfg) : Handle := { pool := if c.prep then .prepDB else .sqlDB }
 
+/-- ways of deriving a handle from a handle (user code inside or outside a transaction) -/
+inductive Derive where
+  | keep         -- Session{} / SkipHooks / Context / Logger / NowFunc / QueryFields / CreateBatchSize / AllowGlobalUpdate /
+                 -- FullSaveAssociations / PropagateUnscoped / DryRun:false, WithContext
+  | prep         -- Session{PrepareStmt: true}
+  | newDB        -- Session{NewDB: true}
+  | skipTx       -- Session{SkipDefaultTransaction: true}
+  | disNested    -- Session{DisableNestedTransaction: true}
+  | chain        -- a chain method without conditions: Model / Table / Select / Set (getInstance; the result has clone = 0)
+  | whereNe (k : Nat)   -- chained `.Where("id <> ?", k)`
+  | initialized  -- Session{Initialized: true}: Session, then getInstance
+  | debug        -- Debug(): getInstance, then Session{Logger}
+deriving DecidableEq, Repr
+
+/-- gorm.go:405 `getInstance` on (conditions, clone): clone = 1 → new Statement; clone = 2 → cloned; clone = 0 → the handle itself -/
+def stChain (s : List Nat × Clone) : List Nat × Clone := (if s.2 = .c1 then [] else s.1, .c0)
+
+/-- effect of a derivation on (Statement conditions, clone). `Session` keeps the Statement POINTER (gorm.go:230) and sets
+    clone = 2 unless NewDB (:299); NewDB keeps clone = 1 — the old conditions stay in the Statement and are only ignored
+    by getInstance, so a later plain Session on that handle brings them back. -/
+def deriveSt : Derive → List Nat × Clone → List Nat × Clone
+  | .keep, s | .prep, s | .skipTx, s | .disNested, s => (s.1, .c2)
+  | .newDB, s => (s.1, .c1)
+  | .chain, s => stChain s
+  | .whereNe k, s => (k :: (stChain s).1, .c0)
+  | .initialized, s => (s.1, .c0)
+  | .debug, s => ((stChain s).1, .c2)
+
+/-- finisher_api.go:667 `db.getInstance().Session(&Session{Context: …, NewDB: db.clone == 1})` -/
+def beginSt (s : List Nat × Clone) : List Nat × Clone := if s.2 = .c1 then ([], .c1) else (s.1, .c2)
+
+/-- finisher_api.go:639 `db.Session(&Session{NewDB: db.clone == 1})` -/
+def nestSt (s : List Nat × Clone) : List Nat × Clone := if s.2 = .c1 then (s.1, .c1) else (s.1, .c2)
+
+/-- gorm.go:226 `Session` (and :405 `getInstance` for chain methods): `Error` and `Statement.ConnPool` are COPIED, so the new
+    handle stays on the transaction's connection. Session{PrepareStmt} (:262-283): `case Tx:` wraps the transaction
+    (`*sql.Tx`, a `*PreparedStmtTX` — double wrapping — or a custom pool's Tx) in a `*PreparedStmtTX`; `default:` a
+    `*PreparedStmtDB` over the pool. -/
+def derive (k : Derive) (h : Handle) : Handle :=
+  { h with
+    pool := match k, h.pool with | .prep, .sqlDB => .prepDB | .prep, .sqlTx => .prepTx | _, p => p
+    skip := h.skip || k = .skipTx
+    dis := h.dis || k = .disNested
+    cond := (deriveSt k (h.cond, h.clone)).1
+    clone := (deriveSt k (h.cond, h.clone)).2 }
+
+/-- the handle a nested Transaction passes to its function -/
+def nestH (h : Handle) : Handle :=
+  { h with cond := (nestSt (h.cond, h.clone)).1, clone := (nestSt (h.cond, h.clone)).2 }
+
+/-- `AddError` of a SavePoint/RollbackTo result: on a clone = 0 handle the dialector's `tx.Exec` runs ON the handle
+    (getInstance returns it), so the error is already in `db.Error` when `db.AddError(…)` adds it again -/
+def spErr (h : Handle) (e : Err) : Err := addError (if h.clone = .c0 then e else h.err) e
+
 def markStale (h : Handle) (db : DB) : DB := if h.err = [] then db else { db with stale := true }
+
+def beginH (h : Handle) (p : Pool) (e : Err) : Handle :=
+  { h with pool := p, err := e, cond := (beginSt (h.cond, h.clone)).1, clone := (beginSt (h.cond, h.clone)).2 }
 
 /-- finisher_api.go:664 `Begin`: new handle (Session copies Error and ConnPool); type switch TxBeginner (`*sql.DB`) /
     ConnPoolBeginner (`*PreparedStmtDB`, prepare_stmt.go:139 → `&PreparedStmtTX{Tx: tx}`) / default ErrInvalidTransaction -/
 def gormBegin (o : Oracle) (h : Handle) (db : DB) : DB × Handle :=
   match h.pool with
-  | .sqlDB => let (db, e) := drvBegin o db; (db, { pool := .sqlTx, err := addError h.err e })
-  | .prepDB => let (db, e) := drvBegin o db; (db, { pool := .prepTx, err := addError h.err e })
-  | p => (db, { pool := p, err := addError h.err [.invalidTx] })
+  | .sqlDB => let (db, e) := drvBegin o db; (db, beginH h .sqlTx (addError h.err e))
+  | .prepDB => let (db, e) := drvBegin o db; (db, beginH h .prepTx (addError h.err e))
+  | p => (db, beginH h p (addError h.err [.invalidTx]))
 
 /-- finisher_api.go:692 `Commit` (+ prepare_stmt.go:213 `PreparedStmtTX.Commit` forwarding to `tx.Tx.Commit()`) -/
 def gormCommit (o : Oracle) (h : Handle) (db : DB) : DB × Handle :=
@@ -234,20 +316,26 @@ def execRawTx (h : Handle) (call : DB → DB × Err) (db : DB) : DB × Err :=
 /-- finisher_api.go:714 `SavePoint`: (unwrap *PreparedStmtTX to its Tx,) run the statement, `db.AddError` ON THE HANDLE ITSELF -/
 def gormSavePoint (o : Oracle) (h : Handle) (name : SpName) (db : DB) : DB × Handle :=
   let (db, e) := execRawTx h (drvSavepoint o name) db
-  (db, { h with err := addError h.err e })
+  (db, { h with err := spErr h e })
 
 /-- finisher_api.go:738 `RollbackTo` -/
 def gormRollbackTo (o : Oracle) (h : Handle) (name : SpName) (db : DB) : DB × Handle :=
   let (db, e) := execRawTx h (drvRollbackTo o name) db
-  (db, { h with err := addError h.err e })
+  (db, { h with err := spErr h e })
+
+/-- `DELETE … WHERE id <> k AND id = k` touches nothing -/
+def effWrite (cond : List Nat) : Write → Write
+  | .del k => if cond.contains k then .nop else .del k
+  | w => w
 
 /-- `h.Create(&item)` / `h.Delete(&item, id)`: fresh statement instance (Error copied from the handle);
     callbacks/transaction.go BeginTransaction (skipped when SkipDefaultTransaction or Error ≠ nil; ErrInvalidTransaction of a
     tx pool is swallowed), the statement (`if db.Error != nil return`), CommitOrRollbackTransaction. The handle is not modified. -/
-def gormWrite (c : Cfg) (o : Oracle) (h : Handle) (w : Write) (db : DB) : DB × Err :=
+def gormWrite (c : Cfg) (o : Oracle) (h : Handle) (w0 : Write) (db : DB) : DB × Err :=
+  let w := effWrite h.effCond w0
   if h.err ≠ [] then (db, h.err) else
   if h.pool.isCommitter then drvExecTx o w db
-  else if c.skip then drvExecPool o w db
+  else if c.skip || h.skip then drvExecPool o w db
   else
     let (db, tx) := gormBegin o h db
     if tx.err ≠ [] then (db, tx.err) else
@@ -262,7 +350,7 @@ def gormWrite (c : Cfg) (o : Oracle) (h : Handle) (w : Write) (db : DB) : DB × 
 /-- `h.Find(&items)`: query pipeline has no transaction callbacks; callbacks/query.go `if db.Error == nil` -/
 def gormQuery (o : Oracle) (h : Handle) (db : DB) : DB × Err :=
   if h.err ≠ [] then (db, h.err) else
-  if h.pool.isCommitter then drvQueryTx o db else drvQueryPool o db
+  if h.pool.isCommitter then drvQueryTx o h.effCond db else drvQueryPool o h.effCond db
 
 /-! ### Layer 3: programs -/
 
@@ -279,10 +367,11 @@ inductive Prog where
   | man (body : List Prog) (fin : Fin) (must : Bool)                 -- tx := h.Begin(); body; tx.Commit()/tx.Rollback()
   | sp (name : Nat) (must : Bool)                                    -- h.SavePoint(name)
   | rb (name : Nat) (must : Bool)                                    -- h.RollbackTo(name)
+  | dv (k : Derive) (body : List Prog) (must : Bool)                 -- h2 := derive k h; body on h2 (h itself is not modified)
 deriving Repr
 
 def Prog.must : Prog → Bool
-  | .write _ m | .read m | .blk _ _ _ m | .man _ _ m | .sp _ m | .rb _ m => m
+  | .write _ m | .read m | .blk _ _ _ m | .man _ _ m | .sp _ m | .rb _ m | .dv _ _ m => m
 
 def outRes (out : Out) (tag : Nat) : Res :=
   match out with
@@ -361,15 +450,15 @@ def runChild (c : Cfg) (o : Oracle) (h : Handle) : Prog → DB → DB × Handle 
   | .blk body out tag _, db =>
     let db := markStale h db
     if h.pool.isCommitter then                                   -- :624 TxCommitter type test
-      if !c.dis then                                             -- :626
+      if !(c.dis || h.dis) then                                  -- :626
         let name := SpName.auto db.calls                         -- :627
         let (db, h1) := gormSavePoint o h name db                -- :628 `err = db.SavePoint(…).Error`
         if h1.err ≠ [] then (db, h1, .err h1.err)                -- :629 fc is not run
         else
           -- :639 `fc(db.Session(&Session{NewDB: db.clone == 1}))`: a NEW handle with the same pool and a copy of Error
-          finishNested o h1 name out tag (runBody c o { pool := h1.pool, err := h1.err } body db)
+          finishNested o h1 name out tag (runBody c o (nestH h1) body db)
       else
-        finishDis h out tag (runBody c o { pool := h.pool, err := h.err } body db)
+        finishDis h out tag (runBody c o (nestH h) body db)
     else
       let (db, tx) := gormBegin o h db                           -- :641
       if tx.err ≠ [] then (db, h, .err tx.err)                   -- :642
@@ -380,6 +469,10 @@ def runChild (c : Cfg) (o : Oracle) (h : Handle) : Prog → DB → DB × Handle 
     let (db, tx) := gormBegin o h db
     if tx.err ≠ [] then (db, h, .err tx.err)
     else finishMan o h fin (runBody c o tx body db)
+  -- user code derives a handle (Session / WithContext / Debug / chain method) and goes on working through it
+  | .dv k body _, db =>
+    match runBody c o (derive k h) body (markStale h db) with
+    | (db, _, r) => (db, h, r)
 
 /-- the statements of a function body in order; a `must` child that fails ends the body with its error / panic,
     a non-`must` child's error is ignored and its panic recovered -/
@@ -405,6 +498,7 @@ def wfChild (inTx : Bool) : Prog → Bool
   | .sp _ _ | .rb _ _ => inTx
   | .blk body _ _ _ => wfBody true body
   | .man body _ _ => wfBody true body
+  | .dv _ body _ => wfBody inTx body
 def wfBody (inTx : Bool) : List Prog → Bool
   | [] => true
   | p :: ps => wfChild inTx p && wfBody inTx ps
@@ -414,6 +508,29 @@ end
 
   `view` is the store the current function sees (the committed store at top level, the transaction's working store inside);
   `n` is the driver-call counter, needed only to consult the same fault oracle. -/
+
+/-- what the reference knows about the handle an operation goes through: inside a transaction or not, the two per-handle
+    Config flags, the chained conditions — no pools, no errors, no save-point names -/
+structure Env where
+  inTx : Bool
+  skip : Bool
+  dis : Bool
+  cond : List Nat := []     -- conditions held by the Statement of the handle
+  clone : Clone := .c1
+
+def Env.effCond (e : Env) : List Nat := if e.clone = .c1 then [] else e.cond
+
+def specDerive (k : Derive) (e : Env) : Env :=
+  { e with skip := e.skip || k = .skipTx, dis := e.dis || k = .disNested,
+           cond := (deriveSt k (e.cond, e.clone)).1, clone := (deriveSt k (e.cond, e.clone)).2 }
+
+def Env.begin (e : Env) : Env :=
+  { e with inTx := true, cond := (beginSt (e.cond, e.clone)).1, clone := (beginSt (e.cond, e.clone)).2 }
+def Env.nest (e : Env) : Env :=
+  { e with cond := (nestSt (e.cond, e.clone)).1, clone := (nestSt (e.cond, e.clone)).2 }
+
+/-- a SAVEPOINT error is recorded twice on a clone = 0 handle (see `spErr`) -/
+def spErrSpec (e : Env) (n : Nat) : Err := if e.clone = .c0 then [.inj n, .inj n] else [.inj n]
 
 def specWrite (o : Oracle) (w : Write) (view : Store) (n : Nat) : Store × Nat × Res :=
   if o n then (view, n + 1, .err [.inj n]) else
@@ -427,48 +544,50 @@ def specFnOut (out : Out) (tag : Nat) : Store × Nat × Res → Store × Nat × 
   | x => x
 
 mutual
-def specChild (c : Cfg) (o : Oracle) (inTx : Bool) : Prog → Store → Nat → Store × Nat × Res
-  | .write w _, v, n =>
-    if inTx || c.skip then specWrite o w v n
+def specChild (o : Oracle) (e : Env) : Prog → Store → Nat → Store × Nat × Res
+  | .write w0 _, v, n =>
+    let w := effWrite e.effCond w0
+    if e.inTx || e.skip then specWrite o w v n
     else if o n then (v, n + 1, .err [.inj n])                       -- implicit BEGIN fails
     else match specWrite o w v (n + 1) with
       | (s, _, .ok) => if o (n + 2) then (v, n + 3, .err [.inj (n + 2)]) else (s, n + 3, .ok)   -- implicit COMMIT
       | (_, _, r) => (v, n + 3, r)                                    -- implicit ROLLBACK
   | .read _, v, n => if o n then (v, n + 1, .err [.inj n]) else (v, n + 1, .ok)
-  | .sp _ _, v, n => if o n then (v, n + 1, .err [.inj n]) else (v, n + 1, .ok)
+  | .sp _ _, v, n => if o n then (v, n + 1, .err (spErrSpec e n)) else (v, n + 1, .ok)
   | .rb _ _, v, n => (v, n + 1, .err [.noSavepoint])                 -- outside the fragment the reference covers
+  | .dv k body _, v, n => specBody o (specDerive k e) body v n       -- a derived handle is the same transaction
   | .blk body out tag _, v, n =>
-    if inTx then
-      if c.dis then specFnOut out tag (specBody c o true body v n)                       -- nothing of its own to undo
-      else if o n then (v, n + 1, .err [.inj n])                      -- SAVEPOINT fails: function not run
-      else match specFnOut out tag (specBody c o true body v (n + 1)) with
+    if e.inTx then
+      if e.dis then specFnOut out tag (specBody o e.nest body v n)                       -- nothing of its own to undo
+      else if o n then (v, n + 1, .err (spErrSpec e n))               -- SAVEPOINT fails: function not run
+      else match specFnOut out tag (specBody o e.nest body v (n + 1)) with
         | (s, n', .ok) => (s, n', .ok)
         | (_, n', r) => (v, n' + 1, r)                                -- back to the entry store
     else if o n then (v, n + 1, .err [.inj n])                        -- BEGIN fails
-    else match specFnOut out tag (specBody c o true body v (n + 1)) with
+    else match specFnOut out tag (specBody o e.begin body v (n + 1)) with
       | (s, n', .ok) => if o n' then (v, n' + 1, .err [.inj n']) else (s, n' + 1, .ok)     -- COMMIT
       | (_, n', r) => (v, n' + 1, r)                                  -- ROLLBACK
   | .man body fin _, v, n =>
-    if inTx then (v, n, .err [.invalidTx])
+    if e.inTx then (v, n, .err [.invalidTx])
     else if o n then (v, n + 1, .err [.inj n])
-    else match specBody c o true body v (n + 1) with
+    else match specBody o e.begin body v (n + 1) with
       | (s, n', .ok) =>
         match fin with
         | .commit => if o n' then (v, n' + 1, .err [.inj n']) else (s, n' + 1, .ok)
         | .rollback => (v, n' + 1, .ok)
       | (_, n', r) => (v, n' + 1, r)
-def specBody (c : Cfg) (o : Oracle) (inTx : Bool) : List Prog → Store → Nat → Store × Nat × Res
+def specBody (o : Oracle) (e : Env) : List Prog → Store → Nat → Store × Nat × Res
   | [], v, n => (v, n, .ok)
   | p :: ps, v, n =>
-    match specChild c o inTx p v n with
+    match specChild o e p v n with
     | (v1, n1, r) =>
       match r with
-      | .ok => specBody c o inTx ps v1 n1
-      | r => if p.must then (v1, n1, r) else specBody c o inTx ps v1 n1
+      | .ok => specBody o e ps v1 n1
+      | r => if p.must then (v1, n1, r) else specBody o e ps v1 n1
 end
 
 def spec (c : Cfg) (o : Oracle) (ps : List Prog) (committed : Store) : Store × Res :=
-  match specBody c o false ps committed 0 with
+  match specBody o { inTx := false, skip := c.skip, dis := c.dis } ps committed 0 with
   | (s, _, r) => (s, r)
 
 end Gorm.Tx
